@@ -71,7 +71,7 @@ fn gen_name(rng: &mut Rng) -> Vec<u8> {
     match rng.below(6) {
         0 => rng.pick(&[&b"Transfer-Encoding"[..], b"transfer-encoding", b"TRANSFER-ENCODING"]).to_vec(),
         1 => rng.pick(&[&b"Set-Cookie"[..], b"set-cookie", b"SET-COOKIE", b"X-Dup", b"x-dup"]).to_vec(),
-        2 => rng.pick(&[&b"Content-Type"[..], b"Location", b"ETag", b"Content-Encoding-X"]).to_vec(),
+        2 => rng.pick(&[&b"Content-Type"[..], b"Location", b"ETag", b"Content-Encoding-X", b"Keep-Alive", b"Upgrade", b"Proxy-Connection", b"Trailer", b"TE", b"Connection", b"Proxy-Authenticate"]).to_vec(),
         _ => {
             let n = rng.range(1, 24) as usize;
             (0..n).map(|_| *rng.pick(TCHARS)).collect()
@@ -145,6 +145,27 @@ pub fn gen_head(rng: &mut Rng, max_fields: usize, te_chunked_only: bool) -> Head
             Field { name, pad_l: rng.below(3) as usize, value, pad_r: rng.below(3) as usize }
         })
         .collect();
+    // a `Connection` field whose options name other fields of this very head (RFC 9110 §7.6.1 lets a sender
+    // nominate fields as hop-by-hop): the client still reports every field it was sent, only
+    // Transfer-Encoding is hidden
+    if nf >= 2 && rng.chance(1, 5) {
+        let k = rng.below(nf as u64) as usize;
+        let mut opts: Vec<Vec<u8>> = vec![];
+        for (i, f) in fields.iter().enumerate() {
+            if i != k && rng.chance(2, 3) {
+                let mut n = f.name.clone();
+                match rng.below(3) {
+                    0 => n.make_ascii_lowercase(),
+                    1 => n.make_ascii_uppercase(),
+                    _ => {}
+                }
+                opts.push(n);
+            }
+        }
+        opts.insert(rng.below(opts.len() as u64 + 1) as usize, rng.pick(&[&b"close"[..], b"keep-alive", b"Keep-Alive"]).to_vec());
+        fields[k].name = rng.pick(&[&b"Connection"[..], b"connection", b"CONNECTION"]).to_vec();
+        fields[k].value = opts.join(&b", "[..]);
+    }
     // sometimes a header block well above the 8 KiB BufReader
     if rng.chance(1, 10) && nf > 0 {
         for f in fields.iter_mut().take(6) {
@@ -235,6 +256,7 @@ pub fn generate(seed: u64, tier: &str, sink: &mut Sink) {
                 format!("block>8K={}", wire.len() > 8192),
                 format!("lf-continuation={}", head.fields.iter().any(|f| f.value.contains(&b'\n'))),
                 format!("obs-text={}", head.fields.iter().any(|f| f.value.iter().any(|&b| b >= 0x80))),
+                format!("connection-field={}", head.fields.iter().any(|f| f.name.eq_ignore_ascii_case(b"connection"))),
                 if head.fields.is_empty() { "trivial".into() } else { "nontrivial".into() },
             ],
             op: case.op_line(),
